@@ -53,6 +53,8 @@ def projects(draw: Any, cycles: bool = False, star_consumers: bool = False) -> D
             form = draw(st.sampled_from(['plain', 'plain', 'renamed', 'star', 'absolute']))
             exports.append({'obj': d['name'], 'from': m, 'via': draw(st.sampled_from(['pkg', 'pkg', 'api'])), 'form': form,
                             'as': ('Pub' + d['name']) if form == 'renamed' else d['name'], 'alltype': draw(st.sampled_from(['list', 'tuple']))})
+            # the re-exporting import may sit in a block that is always entered (an optional dependency, a version check)
+            exports[-1]['guard'] = draw(st.sampled_from([None, None, None, 'try', 'if', 'if-version']))
             if form == 'renamed' and draw(st.booleans()):
                 # the defining module has an unrelated object that is called like the exported name: it stays where it is
                 exports[-1]['clash_id'] = new_id()
@@ -159,13 +161,22 @@ def to_files(proj: Dict[str, Any]) -> Tuple[Dict[str, str], Dict[str, Any]]:
         tgt, allv = (pkg_lines, pkg_all) if e['via'] == 'pkg' else (api_lines, api_all)
         alltype[e['via']] = e['alltype']
         if e['form'] == 'plain':
-            tgt.append('from .%s import %s' % (e['from'], e['obj']))
+            stmt = 'from .%s import %s' % (e['from'], e['obj'])
         elif e['form'] == 'absolute':
-            tgt.append('from p.%s import %s' % (e['from'], e['obj']))
+            stmt = 'from p.%s import %s' % (e['from'], e['obj'])
         elif e['form'] == 'renamed':
-            tgt.append('from .%s import %s as %s' % (e['from'], e['obj'], e['as']))
+            stmt = 'from .%s import %s as %s' % (e['from'], e['obj'], e['as'])
         else:
-            tgt.append('from .%s import *' % e['from'])
+            stmt = 'from .%s import *' % e['from']
+        g = e.get('guard')
+        if g == 'try':
+            tgt += ['try:', '    ' + stmt, 'except ImportError:', '    pass']
+        elif g == 'if':
+            tgt += ['if True:', '    ' + stmt]
+        elif g == 'if-version':
+            tgt += ['import sys', 'if sys.version_info >= (3, 0):', '    ' + stmt]
+        else:
+            tgt.append(stmt)
         allv.append(e['as'])
     for lines, allv, key in ((pkg_lines, pkg_all, 'pkg'), (api_lines, api_all, 'api')):
         if allv:
